@@ -421,7 +421,10 @@ def t3(ck: Check) -> None:
                             ff = tr.f(test)
                             fs.append(ff if pol else logic.Not(ff))
                         pc = logic.And(*fs)
-                        if logic.atoms(pc) and logic.implies(pc, logic.Le("solution_limit", "0")) and r.lineno < calls[0].lineno:
+                        fcs = fm.facts(rn)
+                        # (the test that leads to this return is passed on every way to the call)
+                        if logic.atoms(pc) and logic.implies(pc, logic.Le("solution_limit", "0")) and fcs \
+                                and all(fm.cfg.dominates(fm.cfg.nodes[next(iter(fm.cfg.g.predecessors(b_.id)))], cn) for _t, _p, b_ in fcs):
                             guards.append((r, pc))
             if not guards:
                 probs.append("a solution limit <= 0 still runs the enumeration: the callback appends the first solution before "
